@@ -52,6 +52,10 @@ def analyse(u, f):
     return groups
 
 
+REFSEQ = {('crc16/32', False): ((1, 0), (0, 1), (1, 0), (1, 1)), ('crc16/32', True): ((0, 0), (0, 1), (0, 0), (0, 1)),
+          ('crc64', False): ((1, 0), (1, 0), (1, 1)), ('crc64', True): ((0, 0), (0, 0), (0, 1))}
+
+
 def klass(sym):
     refl = 'refl' in sym
     if sym.startswith('crc64'):
@@ -97,8 +101,12 @@ def check(rep, floor):
     for k, members in sorted(seqs.items()):
         cnt = Counter(v[0] for v in members.values())
         ref, nref = cnt.most_common(1)[0]
-        if len(members) < 2 or nref < len(members) - 1 and nref * 2 <= len(members):
-            raise AnalysisBroken('V-CRCFOLD: class %s has no majority reduction sequence' % (k,))
+        if len(members) < 2:
+            raise AnalysisBroken('V-CRCFOLD: class %s has a single member' % (k,))
+        if nref * 2 <= len(members):
+            # kernels generated from one template change together: fall back to the sequences confirmed by reading on the pinned tree
+            ref = REFSEQ[k]
+            nref = sum(1 for v in members.values() if v[0] == ref)
         for sym, (seq, info) in sorted(members.items()):
             R.instance()
             R.check(seq == ref, '%s:%s' % (info['unit'].name, sym), '%s: the final reduction selects halves %s; the other %d kernels of class %s select %s' % (sym, list(seq), nref, k, list(ref)),
